@@ -19,7 +19,7 @@ from vf.checks import c14
 
 SHARDS = {'quick': 16, 'thorough': 64}
 TIMEOUT = {'quick': 1500, 'thorough': 7200}
-MUST_HIT = ['EarlierObject.rechecked', 'Xsd.types-in-nested-package', 'Xsd.attribute-of-unsupported-data-type', 'Xsd.well-formed', 'Xsd.types', 'Xsd.classes', 'Xsd.after-edit', 'Xsd.cli-file',
+MUST_HIT = ['Xsd.two-data-types-of-one-name-in-scope', 'EarlierObject.rechecked', 'Xsd.types-in-nested-package', 'Xsd.attribute-of-unsupported-data-type', 'Xsd.well-formed', 'Xsd.types', 'Xsd.classes', 'Xsd.after-edit', 'Xsd.cli-file',
             'Xsd.enumerator-order', 'Xsd.real-model-edit', 'Xsd.xml-special-names', 'Xsd.class-owned-directly-by-a-component', 'Xsd.type-owned-directly-by-a-component', 'Xsd.class-without-declared-attributes', 'Xsd.edited-in-place-and-generated-again']
 MUST_REACH = ['bridgepoint/gen_xsd_schema.py:build_schema', 'bridgepoint/gen_xsd_schema.py:build_component',
               'bridgepoint/gen_xsd_schema.py:build_class', 'bridgepoint/gen_xsd_schema.py:build_enum_type',
@@ -127,11 +127,26 @@ def compare(ctx, d, root, tag, component='comp'):
     d.enums = list(d.enums) + [e for e in ge if e[0] not in [x[0] for x in d.enums]]
     d.udts = list(d.udts) + [u for u in gu if u[0] not in [x[0] for x in d.udts]]
     exp_t, exp_c = bp.reference_xsd(d, component)
-    got_t, got_c, problems = bp.observed_xsd(root)
+    got_t, got_c, problems, got_further = bp.observed_xsd(root)
     if problems:
         raise Mismatch('declarations/duplicate', '%s: %s' % (tag, '; '.join(problems[:3])))
     ctx.hit('Xsd.types')
-    if exp_t != got_t:
+    # declarations as a multiset: one per data type in scope, also when two data types (of different packages) carry
+    # one name
+    exp_twins = bp.reference_xsd_twins(d, component)
+    if exp_twins:
+        ctx.hit('Xsd.two-data-types-of-one-name-in-scope')
+    canon = lambda items: sorted(repr((n, (k, list(v) if isinstance(v, (list, tuple)) else v))) for n, (k, v) in items)
+    exp_all = canon(list(exp_t.items()) + exp_twins)
+    got_all = canon(list(got_t.items()) + got_further)
+    if exp_all == got_all:
+        pass
+    elif exp_twins or got_further:
+        missing = [x for x in exp_all if x not in got_all or exp_all.count(x) > got_all.count(x)]
+        extra = [x for x in got_all if x not in exp_all or got_all.count(x) > exp_all.count(x)]
+        raise Mismatch('types/declarations-of-same-named-types', '%s: simple type declarations: missing %s, not expected %s'
+                       % (tag, missing[:3], extra[:3]))
+    elif exp_t != got_t:
         for k in sorted(set(exp_t) | set(got_t)):
             if exp_t.get(k) != got_t.get(k):
                 kind = 'missing' if k not in got_t else ('extra' if k not in exp_t else 'differs')
@@ -241,6 +256,20 @@ def one_diagram(ctx, rng, tmpdir):
         ctx.hit('Xsd.types-in-nested-package')
         d.enums.append(('Deep_Enum', ['D1', 'D2', 'D3'], rng.choice(('deep', 'direct', 'direct-nested'))))
         d.udts.append(('Deep_Count', rng.choice(('integer', 'Deep_Enum', 'Count_t')), rng.choice(('deep', 'direct', 'direct-nested'))))
+    if rng.random() < 0.4:
+        # data type names are unique within a package only: a further enumeration / user type carrying the name of one
+        # that lives in another package (in scope, or in the other component)
+        for _ in range(rng.randint(1, 2)):
+            if rng.random() < 0.5:
+                name, _, where0 = rng.choice(d.enums)
+                twin = ('enum', name, rng.choice((['T1', 'T2'], ['Red', 'Blue'], ['Only'])))
+            else:
+                name, _, where0 = rng.choice(d.udts)
+                twin = ('udt', name, rng.choice(('integer', 'real', 'string', 'boolean')))
+            taken = [where0] + [t[3] for t in d.twin_types if t[1] == name]
+            free = [w for w in ('pkg', 'comp', 'deep', 'direct', 'comp2', 'nested') if w not in taken]
+            if free:
+                d.twin_types.append(twin + (rng.choice(free),))
     for c in d.classes:
         if rng.random() < 0.3:
             ctx.hit('Xsd.attribute-of-unsupported-data-type')
